@@ -24,6 +24,8 @@ pub mod props {
     pub mod c15;
     pub mod c16;
     pub mod c17;
+    pub mod c18;
+    pub mod c20;
 }
 
 use engine::*;
@@ -73,7 +75,9 @@ pub fn dispatch() -> Vec<(&'static str, RunFn, ReplayFn)> {
         ("C14", props::c14::run, props::c14::replay),
         ("C15", props::c15::run, props::c15::replay),
         ("C16", props::c16::run, props::c16::replay),
+        ("C18", props::c18::run, props::c18::replay),
         ("C19", props::c07::run_c19, props::c07::replay_c19),
+        ("C20", props::c20::run, props::c20::replay),
         ("C17", props::c17::run, props::c17::replay),
     ]
 }
